@@ -206,4 +206,65 @@ def pegTopPratt (fuel : Nat) (env : Env) (atom : G) (ops : List PrattOp) : SOut 
   (pegPratt fuel env atom ops ⟨0, []⟩ .unit).andThen fun v s1 e1 =>
     (peg fuel env .end_ s1 .unit).andThen fun _ s2 e2 => .ok v s2 (e1 ++ e2)
 
+/-! ### recursive expression grammars: `recursive(|e| atom.pratt(ops))`
+
+  The calculator pattern: the Pratt parser is the body of a `recursive` definition and its atom / operator parsers
+  refer back to the whole expression (parenthesised sub-expressions, function-call arguments, ternaries …). `G` has no
+  constructor for a Pratt parser, so the knot is tied one level up: inside `atom` and the operators of an `XEnv` the
+  reference `.call hole` *is* the expression. Everything else is the ordinary machine: `runX` is `step` with itself as
+  the open-recursion runner, except at the hole, where it is `pratt_go` (`recursive.rs:146-190` then `pratt.rs:915-978`). -/
+
+structure XEnv where
+  hole : Nat
+  atom : G
+  ops : List PrattOp
+  deriving Repr, Inhabited
+
+def XEnv.isHole (x : XEnv) : G → Bool
+  | .call k => k == x.hole
+  | _ => false
+
+mutual
+def runX (x : XEnv) : Nat → Runner
+  | 0 => fun _ _ _ _ => .oof
+  | n + 1 => fun env m g st =>
+    if x.isHole g then prattGo (fun m g st => runX x n env m g st) env m x.atom x.ops n 0 st
+    else step (runX x n) (nextX x n) (mkIterX x n) n env m g st
+def nextX (x : XEnv) : Nat → NextRunner
+  | 0 => fun _ _ _ _ _ => .oof
+  | n + 1 => stepNext (runX x n) (nextX x n) (mkIterX x n)
+def mkIterX (x : XEnv) : Nat → MkRunner
+  | 0 => fun _ _ _ _ => .oof
+  | n + 1 => stepMk (runX x n) (mkIterX x n)
+end
+
+mutual
+def pegX (x : XEnv) : Nat → SRunner
+  | 0 => fun _ _ _ _ => .oof
+  | n + 1 => fun env g s ctx =>
+    if x.isHole g then sPratt (fun g s => pegX x n env g s ctx) env x.atom x.ops n 0 s
+    else pegStep (pegX x n) (pegNextX x n) (pegMkX x n) n env g s ctx
+def pegNextX (x : XEnv) : Nat → SNextRunner
+  | 0 => fun _ _ _ _ _ => .oof
+  | n + 1 => pegNext (pegX x n) (pegNextX x n) (pegMkX x n)
+def pegMkX (x : XEnv) : Nat → SMkRunner
+  | 0 => fun _ _ _ _ => .oof
+  | n + 1 => pegMk (pegX x n) (pegMkX x n)
+end
+
+/-- `Parser::parse` / `check` of the recursive expression parser -/
+def parseTopX (x : XEnv) (fuel : Nat) (env : Env) (m : Mode) : TopOut :=
+  match runX x fuel env m (.thenIgnore (.call x.hole) .end_) St.init with
+  | .panic w => .panic w
+  | .oof => .oof
+  | .ok v st => .result ⟨some v, st.errs.map (·.err)⟩ st
+  | .fail st =>
+    let alt := match st.alt with
+      | some a => a.err
+      | none => env.ek.expectedFound [] none (env.mkSpan st.pos st.pos)
+    .result ⟨none, st.errs.map (·.err) ++ [alt]⟩ st
+
+def pegTopX (x : XEnv) (fuel : Nat) (env : Env) : SOut :=
+  pegX x fuel env (.thenIgnore (.call x.hole) .end_) ⟨0, []⟩ .unit
+
 end Chumsky
